@@ -21,4 +21,10 @@ def coins : List Coin := [
   ⟨"unobtanium", "Unobtanium", 62248195, 130, "000004c2fc5fffb810dccc197d603690099a68305232e552d96ccbe8e2c52b75", none⟩,
   ⟨"noteblockchain", "NoteBlockchain", 3824018932, 53, "270f3e7b185c412d57ba913d10658df54f15201a67d736cb4071a4ec4eb54836", none⟩
 ]
+
+/-- block-status constants read from the source text of src/blockchain/parser/index.rs (sorted by name) -/
+def statusConsts : List (String × Nat) := [("BLOCK_FAILED_MASK", 96), ("BLOCK_HAVE_DATA", 8), ("BLOCK_HAVE_UNDO", 16), ("BLOCK_VALID_MASK", 7), ("BLOCK_VALID_SCRIPTS", 5)]
+/-- `get_base_reward`: `(rewardBase) >> (height / halvingInterval)`, read from the source text of src/blockchain/proto/block.rs -/
+def rewardBase : Nat := 5000000000
+def halvingInterval : Nat := 210000
 end Generated
